@@ -6,6 +6,14 @@ Real code driven (never copied):
   phase handler : the resource section of the front end's ``_create_jobs`` (the coroutine behind the create-jobs routes) on
                   request *strings* that passed the real ``validate_and_clean_jobs``; the database is a recording fake (only the
                   batch_updates lookup and the final INSERT argument lists), no SQL is interpreted.
+  phase forms   : the same two routines (``validate_and_clean_jobs`` then ``_create_jobs``) on raw job BODIES in every form the job schema
+                  offers for stating a request: ``resources`` absent / ``{}`` / partial (service defaults), storage through the deprecated
+                  top-level ``pvc_size`` (alone, next to other resources, next to ``resources.storage``), the process as deprecated
+                  top-level ``command``+``image`` / docker / jvm (with the documented jvm rules), unrelated job keys mixed in, batch
+                  format versions 1..7, single jobs and then the singly accepted jobs again as ONE bunch.  The request is read off the
+                  raw body by this file (before the repository's validator rewrites it); the grant is read off what was STORED: the
+                  jobs row, the spec written to the spec file for the worker (v1: the row's spec), the machine spec of the row
+                  (what a job-private instance is created from).
 Oracle (independent of the code under test):
   * exact value of every request string with ``fractions.Fraction`` (own recogniser of the schema grammar);
   * memory per core from the machine-type *tables* (memory/cores of a listed machine), not from ``*_memory_per_core_mib``;
@@ -17,6 +25,8 @@ Oracle (independent of the code under test):
 CLOUD is fixed per shard process: even shards gcp, odd shards azure.
 """
 import asyncio
+import copy
+import json
 from fractions import Fraction
 
 PID = 'C12'
@@ -28,7 +38,10 @@ RULE = (
     'other-cloud, unknown), pool_label (configured / unknown / empty) and preemptible (true/false/absent); configurations: generated '
     'deployments of 1..7 pools (worker type x cores from the valid-cores tables x label x preemptible x local-ssd) + the job-private '
     'collection, for gcp (even shards) and azure (odd shards). Non-trivial: request reaches the collection selection; distinct by '
-    '(cloud, branch, outcome class, chosen worker type/cores, granted cores, which resource drove the grant).'
+    '(cloud, branch, outcome class, chosen worker type/cores, granted cores, which resource drove the grant). Phase forms: raw job bodies '
+    'over (process: deprecated command+image | docker | jvm) x (resources: absent | {} | dict) x (storage: none | resources.storage | '
+    'deprecated pvc_size | both) x unrelated job keys x batch format version 1..7, singly and as one bunch of the singly accepted jobs; '
+    'distinct additionally by that form triple.'
 )
 ASSUMPTIONS = [
     'a worker really has the memory/cores listed for its machine type in the repository machine-type tables',
@@ -36,13 +49,22 @@ ASSUMPTIONS = [
     'resolution: cpu is quantised to 1 mcpu, memory/storage to 1 byte; a deficit below one unit is not under-provisioning',
     'cloud persistent-disk limits: gcp 64 TiB, azure 32 TiB; job-private minimum disk 10 GiB',
     'pool configurations are those the driver config page accepts (cores from possible_cores_from_worker_type)',
+    'the deprecated top-level pvc_size means resources.storage (comment table in front_end/validate.py); a body the schema refuses is outside the quantifier (counted only)',
+    'documented jvm rules are not "unsatisfiable" rejections: cpu given => 1, 2, 4 or 8 cores; no lowmem; no machine_type',
+    'spec file layout: 8-byte little-endian start offsets followed by the end offset (own decoder)',
 ]
 TRUSTED_BASE = ['fractions.Fraction request evaluator and satisfiability predicate (this file)', 'recording fake of gear.Database (vf/gen_batch_pure.py)',
                 'inert stubs for prometheus/google/azure SDK imports (never on the deciding path)']
 FORBIDDEN_STUBS = ('aiomysql', 'pymysql', 'google', 'azure', 'kubernetes_asyncio', 'googlecloudprofiler')  # imported only, never called
 SHARDS = {'quick': 2, 'thorough': 16}
 FLOORS = {'granted': 4000, 'rejected_unsatisfiable': 500, 'handler_calls': 1500, 'convert_calls': 5000, 'select_calls': 3000,
-          'clouds': 2, 'granted_memory_driven': 200, 'job_private_granted': 50}
+          'clouds': 2, 'granted_memory_driven': 200, 'job_private_granted': 50,
+          # phase forms (about half of the minimum over quick seeds 0..4)
+          'forms_jobs': 5000, 'forms_accepted': 1400, 'forms_accepted_nonzero_pvc_size': 500,
+          'forms_accepted_nonzero_pvc_size_without_other_resources': 200, 'forms_accepted_all_defaults': 120,
+          'forms_resources_absent': 650, 'forms_resources_empty-dict': 650, 'forms_accepted_deprecated-command-image': 500,
+          'forms_accepted_jvm': 160, 'forms_bunch_jobs_accepted': 700, 'forms_stored_specs_judged': 2000,
+          'forms_machine_specs_judged': 270, 'forms_format_versions': 7}
 
 GIB = 1024**3
 MAX_STORAGE = {'gcp': 64 * 1024 * GIB, 'azure': 32 * 1024 * GIB}
@@ -483,10 +505,108 @@ def run(ctx):
             w['result'] = result
             ctx.case(sample=w, key=('select', cloud) + check_selection('select', pools, jp_cloud, req, result, w))
 
-    # ============ phase handler ===================================================================
-    N = ctx.pick(2500, 25000)
+    # ============ oracle of the front-end phases (handler, forms) ===================================
     defaults = {'cpu': fe.BATCH_JOB_DEFAULT_CPU, 'memory': fe.BATCH_JOB_DEFAULT_MEMORY, 'storage': fe.BATCH_JOB_DEFAULT_STORAGE,
                 'preemptible': fe.BATCH_JOB_DEFAULT_PREEMPTIBLE}
+    JVM_CORES = (1000, 2000, 4000, 8000)
+
+    def exact_request(sent, w):
+        """what the resource request ``sent`` (the job's resources as the client meant them) asks for, exactly"""
+        machine_type = sent.get('machine_type') or None
+        label = sent.get('pool_label') or ''
+        preemptible = sent.get('preemptible', defaults['preemptible'])
+        storage_exact = exact_bytes(sent.get('storage', defaults['storage']))
+        cpu_exact = mem_exact = worker_type = None
+        if machine_type is None:
+            cpu_exact = exact_cpu_mcpu(sent.get('cpu', defaults['cpu']))
+            memory = sent.get('memory', defaults['memory'])
+            if memory in MEMORY_CLASSES:
+                worker_type = mem_class_to_wt[memory]
+            else:
+                mem_exact = exact_bytes(memory)
+        w['exact_request'] = {'cpu_mcpu': None if cpu_exact is None else str(cpu_exact), 'memory_bytes': None if mem_exact is None else str(mem_exact),
+                              'storage_bytes': str(storage_exact), 'worker_type': worker_type, 'machine_type': machine_type,
+                              'label': label, 'preemptible': preemptible}
+        if storage_exact is None or (machine_type is None and (cpu_exact is None or (worker_type is None and mem_exact is None))):
+            raise Inconclusive(f'own evaluator cannot read a schema-accepted request: {sent}')
+        return {'machine_type': machine_type, 'label': label, 'preemptible': preemptible, 'storage': storage_exact, 'cpu': cpu_exact,
+                'mem': mem_exact, 'worker_type': worker_type}
+
+    def judge_rejected(phase, pools, jp_cloud, sent, ex, status, reason, w, jvm=False):
+        """an HTTP error response for one job: is it one of the documented API rules, applied where it applies, or an "unsatisfiable"
+        rejection that the brute force over all collections confirms?  returns the kind of rejection"""
+        machine_type, label, cpu_exact = ex['machine_type'], ex['label'], ex['cpu']
+        w['response'] = {'status': status, 'reason': reason}
+        kind = 'other'
+        if reason.startswith('unknown machine type'):
+            kind = 'unknown-machine-type'
+            if machine_type in model.tables[cloud]:
+                ctx.violation('reject/known-machine-type-called-unknown', f'[{phase}] {reason}', w)
+        elif reason.startswith('cannot specify cpu and memory with machine_type'):
+            kind = 'mt-with-cpu-or-memory'
+            if not (machine_type and ('cpu' in sent or 'memory' in sent)):
+                ctx.violation('reject/spurious-machine-type-combination-error', f'[{phase}] {reason}', w)
+        elif reason.startswith('cannot specify pool label with machine_type'):
+            kind = 'mt-with-label'
+            if not (machine_type and label):
+                ctx.violation('reject/spurious-machine-type-combination-error', f'[{phase}] {reason}', w)
+        elif reason.startswith('invalid cpu for jvm jobs'):
+            kind = 'jvm-cpu'
+            if not (jvm and 'cpu' in sent) or (cpu_exact is not None and cpu_exact in JVM_CORES):
+                ctx.violation('reject/spurious-jvm-rule-error', f'[{phase}] {reason} (jvm={jvm}, cpu {sent.get("cpu")!r})', w)
+        elif reason.startswith('jvm jobs cannot be on lowmem machines'):
+            kind = 'jvm-lowmem'
+            if not (jvm and sent.get('memory') == 'lowmem'):
+                ctx.violation('reject/spurious-jvm-rule-error', f'[{phase}] {reason} (jvm={jvm}, memory {sent.get("memory")!r})', w)
+        elif reason.startswith('jvm jobs may not specify machine_type'):
+            kind = 'jvm-machine-type'
+            if not (jvm and 'machine_type' in sent):
+                ctx.violation('reject/spurious-jvm-rule-error', f'[{phase}] {reason} (jvm={jvm})', w)
+        elif reason.startswith('bad resource request') and 'cpu must be a power of two' in reason:
+            kind = 'cpu-not-power-of-two'
+            if cpu_exact is not None and valid_cores(cpu_exact):
+                ctx.violation('reject/valid-cpu-called-invalid', f'[{phase}] cpu {sent.get("cpu")!r} is exactly {cpu_exact} mcpu, a valid size, but: {reason}', w)
+        elif reason.startswith('resource requests for job') and 'unsatisfiable' in reason:
+            kind = 'unsatisfiable'
+            req = {'cloud': cloud, 'machine_type': machine_type, 'label': label, 'preemptible': ex['preemptible'], 'worker_type': ex['worker_type'],
+                   'cores': None if cpu_exact is None else cpu_exact // 1, 'mem': ex['mem'], 'storage': ex['storage']}
+            if ex['worker_type'] is not None:
+                req['mem'] = 0  # "the memory of that worker type for my cores": implied by the worker-type match
+            check_selection(phase, pools, jp_cloud, req, None, w)
+        else:
+            ctx.violation('reject/unexpected-error-response', f'[{phase}] HTTP {status}: {reason}', w)
+        return kind
+
+    def judge_accepted(phase, pools, jp_cloud, sent, ex, row, r, w):
+        """an accepted job: ``row`` is its INSERT INTO jobs argument list (as a dict), ``r`` the resources of its spec after the handler"""
+        machine_type, label, preemptible, cpu_exact = ex['machine_type'], ex['label'], ex['preemptible'], ex['cpu']
+        w['granted'] = {'inst_coll': row['inst_coll'], 'cores_mcpu': r.get('cores_mcpu'), 'memory_bytes': r.get('memory_bytes'),
+                        'storage_gib': r.get('storage_gib'), 'preemptible': r.get('preemptible')}
+        if row['cores_mcpu'] != r.get('cores_mcpu'):
+            ctx.violation('handler/jobs-row-cores-differ-from-spec', f'[{phase}] jobs.cores_mcpu={row["cores_mcpu"]} spec cores_mcpu={r.get("cores_mcpu")}', w)
+        if r.get('preemptible') != preemptible:
+            ctx.violation('match/wrong-preemptibility', f'[{phase}] spec preemptible={r.get("preemptible")} for request {preemptible}', w)
+        if machine_type is not None and (('cpu' in sent) or ('memory' in sent) or label):
+            ctx.violation('handler/machine-type-combination-accepted', f'[{phase}] machine_type with cpu/memory/pool_label was accepted', w)
+        if machine_type is None and cpu_exact == int(cpu_exact) and not valid_cores(cpu_exact):
+            # a whole-mcpu request that is not a valid size was accepted: it must at least be granted in full (checked below)
+            ctx.count('accepted_invalid_whole_mcpu_cpu')
+        req = {'cloud': cloud, 'machine_type': machine_type, 'label': label, 'preemptible': preemptible, 'worker_type': ex['worker_type'],
+               'cores': cpu_exact, 'mem': ex['mem'] if ex['worker_type'] is None else 0, 'storage': ex['storage']}
+        if cpu_exact is not None:
+            parsed = parse_cpu_in_mcpu(sent.get('cpu', defaults['cpu']))
+            if parsed is not None and cpu_exact - parsed >= 1:
+                # the request string itself was read as less than it says (float truncation in the shared parser)
+                w['parse_cpu_in_mcpu'] = parsed
+                w['cores_deficit_key'] = 'cores/cpu-string-float-truncated'
+        result = (row['inst_coll'], r.get('cores_mcpu'), r.get('memory_bytes'), r.get('storage_gib'))
+        k = check_selection(phase, pools, jp_cloud, req, result, w)
+        if cpu_exact is not None and cpu_exact != int(cpu_exact):
+            ctx.count('accepted_sub_mcpu_cpu_requests')
+        return k
+
+    # ============ phase handler ===================================================================
+    N = ctx.pick(2500, 25000)
     for i, rng in ctx.cases(N, 'handler'):
         pools = g.gen_pool_set(rng, cloud, power_of_two_only=rng.random() < 0.5)
         jp_cloud = cloud if rng.random() < 0.93 else other
@@ -526,25 +646,7 @@ def run(ctx):
             ctx.count('handler_calls')
             out = driver.create('alice', jobs)
 
-            # exact request
-            machine_type = sent.get('machine_type') or None
-            label = sent.get('pool_label') or ''
-            preemptible = sent.get('preemptible', defaults['preemptible'])
-            storage_exact = exact_bytes(sent.get('storage', defaults['storage']))
-            cpu_exact = mem_exact = worker_type = None
-            if machine_type is None:
-                cpu_exact = exact_cpu_mcpu(sent.get('cpu', defaults['cpu']))
-                memory = sent.get('memory', defaults['memory'])
-                if memory in MEMORY_CLASSES:
-                    worker_type = mem_class_to_wt[memory]
-                else:
-                    mem_exact = exact_bytes(memory)
-            w['exact_request'] = {'cpu_mcpu': None if cpu_exact is None else str(cpu_exact), 'memory_bytes': None if mem_exact is None else str(mem_exact),
-                                  'storage_bytes': str(storage_exact), 'worker_type': worker_type, 'machine_type': machine_type,
-                                  'label': label, 'preemptible': preemptible}
-            if storage_exact is None or (machine_type is None and (cpu_exact is None or (worker_type is None and mem_exact is None))):
-                raise Inconclusive(f'own evaluator cannot read a schema-accepted request: {sent}')
-
+            ex = exact_request(sent, w)
             if out[0] == 'error':
                 key = classify_crash(out[1])
                 if sent.get('machine_type') == '' and isinstance(out[1], AssertionError):
@@ -553,65 +655,250 @@ def run(ctx):
                 ctx.case(sample=w, key=('handler', key))
                 continue
             if out[0] == 'http':
-                status, reason = out[1], out[2] or ''
-                w['response'] = {'status': status, 'reason': reason}
-                kind = 'other'
-                if reason.startswith('unknown machine type'):
-                    kind = 'unknown-machine-type'
-                    if machine_type in model.tables[cloud]:
-                        ctx.violation('reject/known-machine-type-called-unknown', f'[handler] {reason}', w)
-                elif reason.startswith('cannot specify cpu and memory with machine_type'):
-                    kind = 'mt-with-cpu-or-memory'
-                    if not (machine_type and ('cpu' in sent or 'memory' in sent)):
-                        ctx.violation('reject/spurious-machine-type-combination-error', f'[handler] {reason}', w)
-                elif reason.startswith('cannot specify pool label with machine_type'):
-                    kind = 'mt-with-label'
-                    if not (machine_type and label):
-                        ctx.violation('reject/spurious-machine-type-combination-error', f'[handler] {reason}', w)
-                elif reason.startswith('bad resource request') and 'cpu must be a power of two' in reason:
-                    kind = 'cpu-not-power-of-two'
-                    if cpu_exact is not None and valid_cores(cpu_exact):
-                        ctx.violation('reject/valid-cpu-called-invalid', f'[handler] cpu {sent.get("cpu")!r} is exactly {cpu_exact} mcpu, a valid size, but: {reason}', w)
-                elif reason.startswith('resource requests for job') and 'unsatisfiable' in reason:
-                    kind = 'unsatisfiable'
-                    req = {'cloud': cloud, 'machine_type': machine_type, 'label': label, 'preemptible': preemptible, 'worker_type': worker_type,
-                           'cores': None if cpu_exact is None else cpu_exact // 1, 'mem': mem_exact, 'storage': storage_exact}
-                    if worker_type is not None:
-                        req['mem'] = 0  # "the memory of that worker type for my cores": implied by the worker-type match
-                    check_selection('handler', pools, jp_cloud, req, None, w)
-                else:
-                    ctx.violation('reject/unexpected-error-response', f'[handler] HTTP {status}: {reason}', w)
+                kind = judge_rejected('handler', pools, jp_cloud, sent, ex, out[1], out[2] or '', w)
                 ctx.count(f'handler_rejected_{kind}')
-                ctx.case(sample=w, key=('handler', cloud, kind, worker_type, machine_type is not None))
+                ctx.case(sample=w, key=('handler', cloud, kind, ex['worker_type'], ex['machine_type'] is not None))
                 continue
-
-            # accepted
             row = dict(zip(g.JOBS_COLUMNS, out[1][0]))
-            r = jobs[0]['resources']
-            w['granted'] = {'inst_coll': row['inst_coll'], 'cores_mcpu': r.get('cores_mcpu'), 'memory_bytes': r.get('memory_bytes'),
-                            'storage_gib': r.get('storage_gib'), 'preemptible': r.get('preemptible')}
-            if row['cores_mcpu'] != r.get('cores_mcpu'):
-                ctx.violation('handler/jobs-row-cores-differ-from-spec', f'[handler] jobs.cores_mcpu={row["cores_mcpu"]} spec cores_mcpu={r.get("cores_mcpu")}', w)
-            if r.get('preemptible') != preemptible:
-                ctx.violation('match/wrong-preemptibility', f'[handler] spec preemptible={r.get("preemptible")} for request {preemptible}', w)
-            if machine_type is not None and (('cpu' in sent) or ('memory' in sent) or label):
-                ctx.violation('handler/machine-type-combination-accepted', '[handler] machine_type with cpu/memory/pool_label was accepted', w)
-            if machine_type is None and cpu_exact == int(cpu_exact) and not valid_cores(cpu_exact):
-                # a whole-mcpu request that is not a valid size was accepted: it must at least be granted in full (checked below)
-                ctx.count('accepted_invalid_whole_mcpu_cpu')
-            req = {'cloud': cloud, 'machine_type': machine_type, 'label': label, 'preemptible': preemptible, 'worker_type': worker_type,
-                   'cores': cpu_exact, 'mem': mem_exact if worker_type is None else 0, 'storage': storage_exact}
-            if cpu_exact is not None:
-                parsed = parse_cpu_in_mcpu(sent.get('cpu', defaults['cpu']))
-                if parsed is not None and cpu_exact - parsed >= 1:
-                    # the request string itself was read as less than it says (float truncation in the shared parser)
-                    w['parse_cpu_in_mcpu'] = parsed
-                    w['cores_deficit_key'] = 'cores/cpu-string-float-truncated'
-            result = (row['inst_coll'], r.get('cores_mcpu'), r.get('memory_bytes'), r.get('storage_gib'))
-            k = check_selection('handler', pools, jp_cloud, req, result, w)
-            if cpu_exact is not None and cpu_exact != int(cpu_exact):
-                ctx.count('accepted_sub_mcpu_cpu_requests')
+            k = judge_accepted('handler', pools, jp_cloud, sent, ex, row, jobs[0]['resources'], w)
             ctx.case(sample=w, key=('handler', cloud) + k)
+    # ============ phase forms =====================================================================
+    # Every FORM in which the job schema lets a client state the same request: resources absent / {} / partial; storage through the
+    # deprecated top-level key pvc_size (alone, next to other resources, next to resources.storage); the process given as the
+    # deprecated top-level command+image, as a docker process or as a jvm process; unrelated job keys mixed in; every batch format
+    # version; single jobs and bunches of several jobs in one call.  The request the client MEANT is read off the raw body (before
+    # the repository's validator rewrites it) by this file; the grant is read off what the front end STORED (the jobs row, the spec
+    # it wrote for the worker, the machine spec the job-private instance is created from).
+    jar_prefix = fe.ACCEPTABLE_QUERY_JAR_URL_PREFIX
+    region_bits = {'us-central1': 1, 'us-east1': 2}
+
+    def gen_job_body(rng, pools, job_id):
+        body = {'job_id': job_id}
+        z = rng.random()
+        if z < 0.35:
+            proc = 'deprecated-command-image'
+            body['command'] = ['true']
+            body['image'] = 'ubuntu:22.04'
+        elif z < 0.85:
+            proc = 'docker'
+            body['process'] = {'type': 'docker', 'command': ['true'], 'image': 'ubuntu:22.04'}
+        else:
+            proc = 'jvm'
+            body['process'] = {'type': 'jvm', 'command': ['is.hail.backend.service.Main', 'x'],
+                               'jar_spec': {'type': 'jar_url', 'value': jar_prefix + '/' + rng.choice(['abc.jar', 'dev/abc.jar'])}}
+            if rng.random() < 0.3:
+                body['process']['profile'] = rng.random() < 0.5
+        jvm = proc == 'jvm'
+        res = {}
+        if rng.random() >= 0.35:
+            if rng.random() < 0.5:
+                if jvm and rng.random() < 0.8:
+                    res['cpu'] = render_cpu(rng, rng.choice(JVM_CORES))
+                elif rng.random() < 0.6:
+                    res['cpu'] = render_cpu(rng, 250 * 2 ** rng.randrange(0, 8))
+                else:
+                    res['cpu'] = gen_cpu_string(rng)
+            z = rng.random()
+            if z < 0.2:
+                res['memory'] = rng.choice(MEMORY_CLASSES)
+            elif z < 0.5:
+                res['memory'] = render_bytes(rng, gen_bytes_near(rng, memory_anchors(model, cloud))) if rng.random() < 0.85 else random_grammar_number(rng) + rng.choice(['', 'K', 'Mi', 'G', 'Gi', 'T'])
+            if rng.random() < (0.04 if jvm else 0.2):
+                res['machine_type'] = rng.choice(sorted(model.tables[cloud]) * 4 + sorted(model.tables[other])[:3] + ['n1-standard-3', '', 'standard'])
+                if rng.random() < 0.85:
+                    res.pop('cpu', None)
+                    res.pop('memory', None)
+            if rng.random() < 0.2:
+                res['pool_label'] = rng.choice(sorted({p.label for p in pools.values()} | {'', 'nope'}))
+            if rng.random() < 0.4:
+                res['preemptible'] = rng.random() < 0.5
+
+        def storage_string():
+            if rng.random() < 0.85:
+                return render_bytes(rng, gen_bytes_near(rng, storage_anchors(cloud)))
+            return random_grammar_number(rng) + rng.choice(['', 'Ki', 'M', 'G', 'Gi', 'Ti'])
+
+        carrier = 'none'
+        if rng.random() < 0.8:
+            z = rng.random()
+            if z < 0.5:
+                carrier = 'pvc_size'
+                body['pvc_size'] = storage_string()
+            elif z < 0.94:
+                carrier = 'resources.storage'
+                res['storage'] = storage_string()
+            else:
+                carrier = 'both'
+                body['pvc_size'] = storage_string()
+                res['storage'] = storage_string()
+        if res:
+            container = 'dict'
+            body['resources'] = res
+        elif rng.random() < 0.5:
+            container = 'absent'
+        else:
+            container = 'empty-dict'
+            body['resources'] = {}
+        # job keys that say nothing about resources
+        if rng.random() < 0.3:
+            body['attributes'] = {'name': 'j', 'pvc_size': '1Gi', 'storage': '7Ti'}
+        if rng.random() < 0.2:
+            body['always_run'] = rng.random() < 0.5
+        if rng.random() < 0.2:
+            body['env'] = [{'name': 'STORAGE', 'value': '100Gi'}]
+        if rng.random() < 0.2:
+            body['regions'] = rng.choice([['us-central1'], ['us-east1'], ['us-central1', 'us-east1']])
+        if rng.random() < 0.15:
+            body['n_max_attempts'] = rng.choice([1, 3, 20])
+        if rng.random() < 0.15:
+            body['timeout'] = rng.choice([1, 30.5, 3600])
+        if rng.random() < 0.15:
+            body['input_files'] = [{'from': 'gs://b/x', 'to': '/io/x'}]
+        if rng.random() < 0.15:
+            body['output_files'] = [{'from': '/io/y', 'to': 'gs://b/y'}]
+        if rng.random() < 0.1:
+            body['always_copy_output'] = rng.random() < 0.5
+        keys = list(body)  # the order of the keys in the JSON body is the client's business
+        rng.shuffle(keys)
+        return {k: body[k] for k in keys}, (proc, container, carrier)
+
+    def meant_resources(body):
+        """the resources request a raw job body states: resources.* plus the deprecated alias pvc_size for resources.storage; when a
+        body states the storage twice (the schema refuses that) the smaller of the two is all that is demanded"""
+        sent = dict(body.get('resources') or {})
+        if 'pvc_size' in body:
+            a = exact_bytes(body['pvc_size'])
+            b = exact_bytes(sent['storage']) if 'storage' in sent else None
+            if b is None or (a is not None and a < b):
+                sent['storage'] = body['pvc_size']
+        return sent
+
+    def stored_full_specs(written):
+        """the specs in the spec file the front end wrote for the worker (8-byte little-endian start offsets + the end offset)"""
+        if len(written) != 1:
+            raise Inconclusive(f'{len(written)} spec files written by one create-jobs call')
+        _, _, data, offsets = written[0]
+        offs = [int.from_bytes(offsets[i:i + 8], 'little') for i in range(0, len(offsets), 8)]
+        return [json.loads(bytes(data[offs[j]:offs[j + 1]]).decode()) for j in range(len(offs) - 1)]
+
+    def judge_stored_job(phase, pools, jp_cloud, sent, ex, out, j, n, version, w):
+        """job j of n of an accepted create-jobs call, judged on what was stored for it"""
+        if len(out[1]) != n:
+            ctx.violation('forms/jobs-rows-differ-from-jobs-sent', f'[{phase}] {n} jobs sent, {len(out[1])} rows inserted', w)
+            return ('rows',)
+        row = dict(zip(g.JOBS_COLUMNS, out[1][j]))
+        db_spec = json.loads(row['spec'])
+        if version > 1:
+            specs = stored_full_specs(out[2])
+            if len(specs) != n:
+                ctx.violation('forms/spec-file-differs-from-jobs-sent', f'[{phase}] {n} jobs sent, {len(specs)} specs written', w)
+                return ('specs',)
+            full = specs[j]
+        else:
+            full = db_spec
+        r = full.get('resources')
+        if not isinstance(r, dict):
+            ctx.violation('forms/stored-spec-without-resources', f'[{phase}] the stored spec has resources={r!r}', w)
+            return ('no-resources',)
+        ctx.count('forms_stored_specs_judged')
+        ctx.seen('forms_format_versions', version)
+        k = judge_accepted(phase, pools, jp_cloud, sent, ex, row, r, w)
+        if ex['machine_type'] is not None and version >= 5:
+            # the job-private instance is created from this triple
+            ms = db_spec[4] if isinstance(db_spec, list) and len(db_spec) > 4 else None
+            w['stored_machine_spec'] = ms
+            if not (isinstance(ms, list) and len(ms) == 3 and ms[0] == ex['machine_type'] and bool(ms[1]) == ex['preemptible']
+                    and isinstance(ms[2], int) and ms[2] * GIB >= ex['storage'] // 1):
+                ctx.violation('job-private/stored-machine-spec-below-request', f'[{phase}] machine spec {ms!r} for {ex["machine_type"]}, '
+                              f'preemptible={ex["preemptible"]}, storage {float(ex["storage"])} bytes', w)
+            else:
+                ctx.count('forms_machine_specs_judged')
+        return k
+
+    N = ctx.pick(2500, 25000)
+    for i, rng in ctx.cases(N, 'forms'):
+        pools = g.gen_pool_set(rng, cloud, power_of_two_only=rng.random() < 0.5)
+        jp_cloud = cloud if rng.random() < 0.93 else other
+        icc = g.make_inst_coll_configs(pools, jp_cloud, known_regions)
+        driver = g.CreateJobsDriver(fe, icc, dict(region_bits), loop)
+        version = rng.choice([7, 7, 7, 7, 6, 5, 4, 3, 2, 1])
+        singly_accepted = []
+        for j in range(rng.choice([1, 1, 2, 3, 4])):
+            body, form = gen_job_body(rng, pools, j + 1)
+            proc, container, carrier = form
+            sent = meant_resources(body)
+            w = witness(pools, job_private_cloud=jp_cloud, format_version=version, job_sent=copy.deepcopy(body), resources_meant=dict(sent))
+            jobs = [copy.deepcopy(body)]
+            try:
+                validate_and_clean_jobs(jobs)
+            except ValidationError as e:
+                ctx.count('forms_schema_rejected_storage_stated_twice' if carrier == 'both' else 'forms_schema_rejected')
+                ctx.case(sample=w, key=('forms', 'schema-rejected', carrier, e.reason[:30]), nontrivial=False)
+                continue
+            ctx.count('forms_jobs')
+            ctx.count(f'forms_process_{proc}')
+            ctx.count(f'forms_resources_{container}')
+            ctx.count(f'forms_storage_via_{carrier}')
+            ex = exact_request(sent, w)
+            pvc_only = carrier == 'pvc_size' and container != 'dict'
+            if pvc_only:
+                ctx.count('forms_pvc_size_without_other_resources')
+            out = driver.create('alice', jobs, format_version=version)
+            if out[0] == 'error':
+                key = classify_crash(out[1])
+                ctx.violation(key, f'[forms] _create_jobs raised {out[1]!r} (HTTP 500) for job {body}', w)
+                ctx.case(sample=w, key=('forms', key))
+                continue
+            if out[0] == 'http':
+                kind = judge_rejected('forms', pools, jp_cloud, sent, ex, out[1], out[2] or '', w, jvm=proc == 'jvm')
+                ctx.count(f'forms_rejected_{kind}')
+                ctx.case(sample=w, key=('forms', cloud, form, kind, ex['worker_type'], ex['machine_type'] is not None))
+                continue
+            k = judge_stored_job('forms', pools, jp_cloud, sent, ex, out, 0, 1, version, w)
+            if k[:2] in (('cheapest', 'granted'), ('worker-type', 'granted'), ('job-private', 'granted')):
+                ctx.count('forms_accepted')
+                ctx.count(f'forms_accepted_{proc}')
+                if carrier == 'pvc_size' and ex['storage'] >= 1:
+                    ctx.count('forms_accepted_nonzero_pvc_size')
+                    if pvc_only:
+                        ctx.count('forms_accepted_nonzero_pvc_size_without_other_resources')
+                if carrier == 'none' and container != 'dict':
+                    ctx.count('forms_accepted_all_defaults')
+                singly_accepted.append((body, sent, form))
+            ctx.case(sample=w, key=('forms', cloud, form, version > 1, version >= 5) + k)
+
+        if len(singly_accepted) < 2:
+            continue
+        # the same jobs, each accepted on its own, sent as ONE bunch: each must be placed on its own request
+        bodies = []
+        for n, (body, _, _) in enumerate(singly_accepted):
+            b = copy.deepcopy(body)
+            b['job_id'] = n + 1
+            bodies.append(b)
+        w = witness(pools, job_private_cloud=jp_cloud, format_version=version, jobs_sent=copy.deepcopy(bodies))
+        ctx.count('forms_bunches')
+        jobs = copy.deepcopy(bodies)
+        try:
+            validate_and_clean_jobs(jobs)
+            out = driver.create('alice', jobs, format_version=version)
+        except ValidationError as e:
+            out = ('http', 400, f'schema: {e.reason}')
+        if out[0] != 'ok':
+            what = repr(out[1]) if out[0] == 'error' else f'HTTP {out[1]}: {out[2]}'
+            w['response'] = what
+            ctx.violation('bunch/singly-accepted-jobs-rejected-together' if out[0] == 'http' else classify_crash(out[1]),
+                          f'[forms] {len(bodies)} jobs that were each accepted alone got {what} when sent in one call', w)
+            ctx.case(sample=w, key=('forms', 'bunch', out[0]))
+            continue
+        ks = []
+        for n, (body, sent, form) in enumerate(singly_accepted):
+            wj = dict(w, job_index=n, resources_meant=dict(sent))
+            ex = exact_request(sent, wj)
+            k = judge_stored_job('forms-bunch', pools, jp_cloud, sent, ex, out, n, len(singly_accepted), version, wj)
+            if len(k) > 1 and k[1] == 'granted':
+                ctx.count('forms_bunch_jobs_accepted')
+            ks.append((form,) + k[:3])
+        ctx.case(sample=w, key=('forms', cloud, 'bunch', version > 1, tuple(sorted(map(str, ks)))))
     loop.close()
 
 
@@ -643,4 +930,15 @@ Breaks applied one at a time on top of the fixes (VERIF_REPO=/tmp/scratch-bp ./c
   own     round() for ceil in adjust_cores_for_packability                 cores/granted-below-request, memory/granted-below-request
   own, subtle  handler: `resources.get('preemptible') or DEFAULT` (explicit false ignored)     match/wrong-preemptibility
   own     handler: memory class asks for twice the cores' memory           reject/satisfiable-request-rejected-worker-type
+
+Phase forms (added after seeded/C12-agent8 went unseen: the workload always put the request in a populated `resources` dict of a docker
+`process`, one job per call, format version 7; the oracle read the request off that dict).  Breaks applied one at a time in a scratch
+worktree, quick tier, all caught by the forms phase:
+  seeded  C12-agent8: handle_deprecated_job_keys `resources = job.get('resources') or {}` never stored back   storage/granted-below-request
+  own     handle_deprecated_job_keys: `job['resources'] = {'storage': pvc_size}` (other resources dropped)     match/wrong-label, match/wrong-worker-type,
+                                                                                                                reject/satisfiable-request-rejected-*
+  own     _create_jobs: `resources = spec.get('resources') or {}` never stored back                            grant/not-an-integer, match/wrong-preemptibility
+  own     _create_jobs: preemptible read only for the first job of a bunch                                      bunch/singly-accepted-jobs-rejected-together,
+                                                                                                                job-private/stored-machine-spec-below-request
+  own     _create_jobs: jvm jobs always get the default storage                                                 storage/granted-below-request
 """
